@@ -53,6 +53,8 @@ def allocator_worker(analysis: Analysis, spec) -> dict:
                 form = f"constant {v.value} not in the map"
         elif getattr(v, "gt_all_keys_of", None) == sens and (("truthy", sens) in s.facts):
             form = "max(known ids) + k, k >= 1, map non-empty"
+        elif getattr(v, "gt_all_keys_of", None) == sens and (getattr(v, "lower_bound", None) or 0) >= 1:
+            form = f"max(known ids, default=c) + k >= {v.lower_bound}, k >= 1 (also on the empty map)"
         elif ("notin", v.key(), sens) in s.facts:
             form = "value dominated by `not in known ids`"
         bounded = False
